@@ -17,7 +17,7 @@ RULE = ("Tables of 1-3 fields with domains of 1-4 mixed hashables (ints, strings
         "StateActionNextStateTable, TabularPolicy. Non-trivial: >=2 fields and a collision-prone outer domain (full "
         "keys) or >=3 navigation steps (navigation); distinct by spec hash."
         ' Also: domaintuple keys, inner domains that are re-ordered subsets of the outer one, over-long keys containing an ellipsis.'
-        " float32 / int64 / longdouble tables, cells compared in the table's own number type. Outermost domains of 257-520 keys.")
+        " float32 / int64 / longdouble tables, cells compared in the table's own number type. Outermost domains of 257-300 keys.")
 ASSUMPTIONS = ["only the selector forms the statement names are generated (no tuple multi-selectors inside a key)",
                "for a foreign key get(k, default) may return the default or raise; only 'never a cell' is asserted"]
 
@@ -66,7 +66,7 @@ def table_specs(draw, classes=CLASSES):
 
 
 def _expand_wide(args):
-    """a table whose outermost domain has 257-520 keys (integers that are not their own position, or strings), expanded from
+    """a table whose outermost domain has 257-300 keys (integers that are not their own position, or strings), expanded from
     a drawn seed; inner domains stay tiny"""
     import random
     cls, nf, k, kind, seed, dtype = args
@@ -431,11 +431,11 @@ def prop_navigate(case, ctx):
 PROPS = [
     Prop("keys", lambda tier: table_specs(), prop_keys, quick=3000, thorough=150000,
          doc="all full / nested / partial keys, outer-key lists, slices, ellipses and foreign keys of a generated table"),
-    Prop("keys_wide", lambda tier: wide_table_specs(sizes=(257,) if tier == "quick" else (257, 300, 520)), prop_keys, quick=3, thorough=400,
-         doc="the same on tables whose outermost domain has 257-520 keys"),
-    Prop("probrows_wide", lambda tier: wide_table_specs(classes=("ProbabilityTable", "TabularPolicy"), sizes=(257,) if tier == "quick" else (257, 300, 520)),
-         prop_probrows, quick=3, thorough=300,
-         doc="rows of probability tables / policies with 257-520 rows"),
+    Prop("keys_wide", lambda tier: wide_table_specs(sizes=(257,)), prop_keys, quick=3, thorough=16,   # (about 2 GB per case: kept small in both tiers)
+         doc="the same on tables whose outermost domain has 257-300 keys"),
+    Prop("probrows_wide", lambda tier: wide_table_specs(classes=("ProbabilityTable", "TabularPolicy"), sizes=(257,) if tier == "quick" else (257, 300)),
+         prop_probrows, quick=3, thorough=32,
+         doc="rows of probability tables / policies with 257-300 rows"),
     Prop("probrows", lambda tier: table_specs(classes=["ProbabilityTable", "TabularPolicy"]), prop_probrows, quick=1500,
          thorough=45000, doc="rows of probability tables and tabular policies as distributions"),
     Prop("navigate", lambda tier: nav_cases(tier), prop_navigate, quick=4000, thorough=240000,
